@@ -769,13 +769,26 @@ func toleratedOperandError(op string, operand ast.Expression, err error) bool {
 
 // isUnknownName reports whether err says that exp, a name, is not known. An
 // unknown identifier somewhere inside a larger expression - an argument of a
-// call, the body of a called function - is a failure of that expression.
+// call, the body of a called function, an index - is a failure of that
+// expression. A method called on a name that is not known (errors.HasAny()
+// where errors was never set, or set to nil) is a path from that name like
+// errors.Count: there is nothing to call the method on.
 func isUnknownName(exp ast.Expression, err error) bool {
-	if _, ok := exp.(*ast.Identifier); !ok {
+	unknown, ok := err.(*ErrUnknownIdentifier)
+	if !ok {
 		return false
 	}
-	_, ok := err.(*ErrUnknownIdentifier)
-	return ok
+	switch e := exp.(type) {
+	case *ast.Identifier:
+		return true
+	case *ast.CallExpression:
+		root, _ := e.Callee.(*ast.Identifier)
+		for root != nil && root.Callee != nil {
+			root = root.Callee
+		}
+		return root != nil && !root.Synthetic && root.Value == unknown.ID
+	}
+	return false
 }
 
 func (c *compiler) arrayOperator(l interface{}, r interface{}, op string) (interface{}, error) {
